@@ -86,6 +86,23 @@ def _token_soup(max_len, rng, limit):
                 n += 1
 
 
+EXPR_ALPHABET = [b'x', b'1', b'|', b'|:', b'(', b')', b'[', b']', b'&', b'+', b'==', b'.', b'as', b'cast', b'i32', b'"s"', b',', b'!', b'-', b';', b'{', b'}', b':']
+
+
+def _statement_soup(tier, rng):
+    """short token sequences where an expression, a statement or a constant value is expected (and at the end of the file):
+    all of length <= 2 (thorough: <= 3), a random sample of length 3 (thorough: 4)"""
+    contexts = [(b'fn f(x: []u8) { var n = ', b'; }'), (b'fn f(x: []u8) { ', b' }'), (b'const N: usize = ', b';'), (b'fn f(x: []u8) { var n = ', b'')]
+    full = 2 if tier == 'quick' else 3
+    for k in range(1, full + 1):
+        for combo in itertools.product(EXPR_ALPHABET, repeat=k):
+            for pre, post in contexts:
+                yield pre + b' '.join(combo) + post
+    for _ in range(1500 if tier == 'quick' else 20000):
+        pre, post = rng.choice(contexts)
+        yield pre + b' '.join(rng.choice(EXPR_ALPHABET) for _ in range(full + 1)) + post
+
+
 def _run_many(mode, inputs, deadline, bad):
     """returns first (input, result) for which bad(result) holds"""
     def one(data):
@@ -133,7 +150,7 @@ def search(pid, unit, failure, tier='quick', seed=0, deadline=None):
             w = witness_header.search(time.time() + BUDGET_S.get(tier, 25) * 0.6, rng)
             if w:
                 return w
-        inputs = itertools.chain(SEEDS_DELTA, _boundary_runs(), _corpus(), _token_soup(4 if tier == 'quick' else 6, rng, 4000 if tier == 'quick' else 60000))
+        inputs = itertools.chain(SEEDS_DELTA, _statement_soup(tier, rng), _boundary_runs(), _corpus(), _token_soup(4 if tier == 'quick' else 6, rng, 4000 if tier == 'quick' else 60000))
         hit = _run_many('delta', inputs, deadline, _crashes)
         if hit:
             data, r = hit
@@ -185,6 +202,10 @@ def replay(w):
             lints = [c for c in r['result'].get('lints', '[]').strip('[]').split(',') if c]
             codes = [c for c in r['result'].get('errors', '[]').strip('[]').split(',') if c]
             return bool(codes) or sum(1 for c in lints if c == '1800') != w['expect_l1800']
+        if 'expect_primary_locations' in w:
+            from . import witness_locations
+            src, expected = witness_locations.PRIMARY[w['expect_primary_locations']]
+            return witness_locations.check_primary(src, expected, r) is not None
         if w.get('expect_locations_ok'):
             from . import witness_locations
             return witness_locations.check(data.decode('utf-8', 'replace'), r) is not None
